@@ -236,6 +236,10 @@ def run(chk, replay=None):
     ucases = ampl_run.universe_cases(chk, stride=1 if tier == "thorough" else 12, offset=0, which={"formula"})
     # ... and four final states (all 15 trees, spins 0 and 1/2, eta = +-1 at the three nodes: 1920 reactions)
     ucases += ampl_run.universe_cases(chk, stride=4 if tier == "thorough" else 80, offset=0, which={"formula"}, maxspin2=1, nfs=4, name="universe4")
+    # ... and the same trees and spins in the canonical basis: every (L, S) combination at every node (chain-clebsch-gordan on
+    # every chain; the solver's projections are set in edge-id order)
+    ucases += ampl_run.universe_cases(chk, stride=1 if tier == "thorough" else 12, offset=chk.seed % 12 if tier != "thorough" else 0, which={"formula"},
+                                      formalism="canonical-helicity", name="universe_canonical")
     for label, reaction, cfg, model, rec in ucases:
         if model is None:
             chk.violation(f"formulate-raises:{rec['error'].split(':')[0]}:universe", f"formulate() failed for {label}: {rec['error']}", {"label": label})
@@ -243,7 +247,7 @@ def run(chk, replay=None):
     if ucases:
         tvu, _, ubyid = ampl_run.validate(chk, ucases, name="trace_amplitude_universe")
         for clause, rid, info in tvu.rejects:
-            chk.violation(f"{clause}:helicity:universe", f"{clause} rejected for {ubyid[rid][0]} ({ubyid[rid][4]['trs'][0]['edges']}): {str(info)[:500]}", {"label": ubyid[rid][0], "record": ubyid[rid][4]})
+            chk.violation(f"{clause}:{'canonical' if ubyid[rid][4]['canonical'] else 'helicity'}:universe", f"{clause} rejected for {ubyid[rid][0]} ({ubyid[rid][4]['trs'][0]['edges']}): {str(info)[:500]}", {"label": ubyid[rid][0], "record": ubyid[rid][4]})
         chk.count(len(ucases))
         for c in ucases:
             chk.nontrivial(("universe", ampl.digest(c[4]["trs"])))
